@@ -11,6 +11,7 @@ import (
 
 	goat "github.com/avos-io/goat"
 	"google.golang.org/grpc"
+	"google.golang.org/grpc/metadata"
 )
 
 // c11AckLoss refuses the opening envelope of a stream AFTER handing it to the transport: the caller's
@@ -326,4 +327,96 @@ func c11SlowPeerLateFrame(r *Run) {
 	}
 	r.Eval("slowpeer", true)
 	r.Count("c11.slowpeer")
+}
+
+// c11ChanTwoAbandoned: over the library's channel transport with unbuffered queues. A server-streaming
+// caller stops reading (the server's writer jams — the documented head-of-line finding), a
+// client-streaming handler returns early while its caller keeps sending (that caller's write parks in
+// the transport). A unary call started afterwards WITH A DEADLINE cannot be served — but it must come
+// back with DeadlineExceeded when its deadline passes: every blocked operation answers to its own context.
+func c11ChanTwoAbandoned(r *Run) {
+	if !r.Want("chanabandoned") {
+		return
+	}
+	in := map[string]any{"transport": "goat.NewGoatOverChannel, unbuffered", "stream A": "server-stream, caller reads one message and idles", "stream B": "client-stream, handler returns after 1 of 6 messages", "probe": "unary with a 300 ms deadline"}
+	r.Progress("chanabandoned", in)
+	c2s, s2c := make(chan *Rpc), make(chan *Rpc)
+	impl := &Impl{}
+	InstallPrograms(impl, NewHandlerLog(), nil)
+	srv := goat.NewServer("srv")
+	srv.RegisterService(&echoDesc, impl)
+	sctx, scancel := context.WithCancel(context.Background())
+	served := make(chan error, 1)
+	go func() { served <- srv.Serve(sctx, goat.NewGoatOverChannel(c2s, s2c)) }()
+	cc := goat.NewClientConn(goat.NewGoatOverChannel(s2c, c2s), "cli", "srv")
+	actx, acancel := context.WithCancel(context.Background())
+	bctx, bcancel := context.WithCancel(context.Background())
+	defer func() {
+		acancel()
+		bcancel()
+		srv.Stop()
+		scancel()
+		cc.Close()
+		go func() {
+			for range s2c {
+			}
+		}()
+		go func() {
+			for {
+				select {
+				case <-c2s:
+				case <-time.After(time.Second):
+					return
+				}
+			}
+		}()
+		within(2*hangTimeout, func() { <-served })
+		close(s2c)
+	}()
+	// stream A
+	csA, err := cc.NewStream(metadata.AppendToOutgoingContext(actx, "x-tag", "A", "x-prog", "burst:50"), descSrv, mSrvStream)
+	if err != nil {
+		r.Violate("chanabandoned.setup", "ops", "stream A could not be opened", in, err.Error(), nil)
+		return
+	}
+	sendB(csA, []byte("req"))
+	csA.CloseSend()
+	if _, err := recvB(csA); err != nil {
+		r.Violate("chanabandoned.setup", "ops", "stream A delivered nothing", in, err.Error(), nil)
+		return
+	}
+	// stream B: its caller keeps sending in the background
+	go func() {
+		csB, err := cc.NewStream(metadata.AppendToOutgoingContext(bctx, "x-tag", "B", "x-prog", "early:1"), descCli, mCliStream)
+		if err != nil {
+			return
+		}
+		for i := 0; i < 6; i++ {
+			if sendB(csB, []byte(fmt.Sprintf("b%d", i))) != nil {
+				return
+			}
+		}
+	}()
+	time.Sleep(50 * time.Millisecond) // both streams are wedged where they are
+	// the probe
+	t0 := time.Now()
+	res := make(chan error, 1)
+	go func() {
+		ctx, cancel := context.WithTimeout(context.Background(), 300*time.Millisecond)
+		defer cancel()
+		_, err := callUnary(ctx, cc, []byte("probe"))
+		res <- err
+	}()
+	r.Eval("chanabandoned", true)
+	r.Count("c11.chanabandoned")
+	select {
+	case err := <-res:
+		if err == nil {
+			r.Count("c11.chanabandoned.probe_served")
+		} else if time.Since(t0) > 3*time.Second {
+			r.Violate("chanabandoned.late", "ops", "a call with a 300 ms deadline came back seconds late", in, time.Since(t0).String(), "about 300 ms")
+		}
+	case <-time.After(c11ProbeDeadline + 2*time.Second):
+		r.Violate("chanabandoned.blocked", "ops", "a unary call with a 300 ms deadline neither completed nor returned DeadlineExceeded: it is blocked beyond its own context", in, goroutineDump(), "DeadlineExceeded after about 300 ms")
+	}
 }
